@@ -1,0 +1,7 @@
+//go:build !verif
+
+package dials
+
+// verifPoint marks an atomic-action boundary for the verification harness.
+// Without the verif build tag it does nothing.
+func verifPoint(string) {}
